@@ -11,13 +11,21 @@ import solve_oracles as so
 
 MODULE = "DfolsVerif.Properties.C02"
 BUILD_TARGETS = ss.ACCEPT_TARGETS
+def pre_build(ctx):
+    import gen_kernels
+    ctx.cov["translated_sampling_loops"] = gen_kernels.regenerate_loops(ctx) + gen_kernels.regenerate_guards(ctx)
+
+
 THEOREMS = [
+    "Dfols.C02.gen_evalLoops", "Dfols.C02.gen_sample_points", "Dfols.C02.C02_evaluate_objective", "Dfols.C02.C02_x0_block",
+    "Dfols.C02.C02_loop_refines_acceptor", "Dfols.C02.C02_hard_restart_guard",
     "Dfols.C02.C02_budget",
     "Dfols.C02.C02_result_counters",
     "Dfols.C02.C02_numbering",
     "Dfols.C02.C02_samples",
 ]
 TRUSTED_EXTRA = [
+    "AST-to-Lean translator harness/gen_kernels.py (translate_loops): the bodies and preludes of the two sampling loops as transformers of the integer/boolean loop state; array bookkeeping (rvec_list, obj_list) is not modelled",
     "model = set of event lists accepted by CountAcc.step (hand-written mirror of solver.py:157-202, controller.py:625-659, the nf/nx threading of solve_main/solve)",
     "the wrappers of harness/trace.py report the events faithfully (evaluation events come from eval_least_squares_with_regularisation as bound in solver/controller, the independent call count from the wrapped user objfun)",
 ]
@@ -58,11 +66,98 @@ def search(ctx):
             ctx.fail(sig, what, {"seed": seed, "config": ss.describe(d)})
         if len(ctx.failures) > 8:
             break
+    log_numbering(ctx)
+
+
+def log_case(dfols, seed_tuple):
+    """one run with logging on; returns (failures [(sig, what)], info)"""
+    import logging
+    import re
+    pat = re.compile(r"Function eval (\d+) at point (\d+) has obj")
+    rng = np.random.default_rng(seed_tuple)
+    n = int(rng.choice([2, 3, 6, 7]))            # the log format changes at logging.n_to_print_whole_x_vector (default 6)
+    k = int(rng.choice([1, 2, 3]))
+    maxfun = int(rng.integers(n + 3, 6 * n + 10))
+    A = rng.normal(size=(n + 1, n))
+    b = rng.normal(size=n + 1)
+    xs, recs = [], []
+
+    def f(x):
+        xs.append(np.array(x, dtype=float).tobytes())
+        return A @ x - b
+
+    class H(logging.Handler):
+        def emit(self, record):
+            recs.append(record.getMessage())
+    h = H()
+    lg = logging.getLogger("dfols")
+    old_level, old_prop = lg.level, lg.propagate
+    lg.addHandler(h)
+    lg.setLevel(logging.INFO)
+    lg.propagate = False
+    info = {"n": n, "nsamples": k, "maxfun": maxfun, "alarm": False}
+    try:
+        kw = dict(maxfun=maxfun, do_logging=True)
+        if k > 1:
+            kw["nsamples"] = lambda delta, rho, it, nruns: k
+            kw["objfun_has_noise"] = True
+        np.random.seed(int(seed_tuple[-1]))
+        core.with_alarm(30, dfols.solve, f, rng.normal(size=n), **kw)
+    except core.Alarm:
+        info["alarm"] = True
+        return [], info
+    finally:
+        lg.removeHandler(h)
+        lg.setLevel(old_level)
+        lg.propagate = old_prop
+    logged = [(int(m.group(1)), int(m.group(2))) for m in (pat.search(r) for r in recs) if m]
+    info["log_lines"] = len(logged)
+    tag = "long-x" if n >= 6 else "short-x"
+    if len(logged) != len(xs):
+        return [("C02:log-lines-vs-calls|" + tag, "%d 'Function eval' log lines for %d objective calls" % (len(logged), len(xs)))], info
+    pt, last = 0, None
+    for j, ((en, pn), xb) in enumerate(zip(logged, xs)):
+        if en != j + 1:
+            return [("C02:log-eval-number|" + tag, "call %d is logged as 'Function eval %d'" % (j + 1, en))], info
+        if pn == pt:
+            if xb != last:
+                return [("C02:log-point-number|" + tag, "calls %d and %d are logged with point number %d but received different x" % (j, j + 1, pn))], info
+        elif pn == pt + 1:
+            pt = pn
+        else:
+            return [("C02:log-point-number|" + tag, "call %d is logged at point %d after point %d (gap or step back)" % (j + 1, pn, pt))], info
+        last = xb
+    return [], info
+
+
+def log_numbering(ctx):
+    """the clause 'evaluations are numbered 1,2,... and evaluation points 1,2,... without gaps (as reported in the log)':
+    real runs with logging on, the log lines 'Function eval i at point j ...' compared with the independent call record"""
+    dfols = core.import_dfols()
+    nrun = ctx.scale(10, 60) * getattr(ctx, "boost", 1)
+    st = {"runs": 0, "log_lines": 0, "long_x_runs": 0, "averaged_runs": 0}
+    for i in range(nrun):
+        seed = [ctx.seed, 2020, i]
+        fails, info = log_case(dfols, seed)
+        if info["alarm"]:
+            continue
+        st["runs"] += 1
+        st["long_x_runs"] += int(info["n"] >= 6)
+        st["averaged_runs"] += int(info["nsamples"] > 1)
+        st["log_lines"] += info.get("log_lines", 0)
+        ctx.seen(("c02log", i, info["n"], info["nsamples"], info.get("log_lines", 0)))
+        for sig, what in fails:
+            ctx.fail(sig, what, {"log_seed": seed, **{k: v for k, v in info.items() if k != "alarm"}})
+    ctx.cov["log_numbering"] = st
 
 
 def replay(payload):
     dfols = core.import_dfols()
     rp = payload.get("replay", {})
+    if "log_seed" in rp:
+        res, _info = log_case(dfols, rp["log_seed"])
+        print("replay:", res if res else "property holds on this input now")
+        return 1 if res else 0
     if "seed" not in rp:
         print("replay names a broken obligation:", payload.get("broken"))
         return 1
